@@ -140,11 +140,11 @@ func guard(rep *lib.Report, sig string, detail func() string, replay interface{}
 }
 
 type c01case struct {
-	L       int
-	N       int
-	Pat     string
-	Chunks  []int // put chunkings to try
-	Concs   []int
+	L        int
+	N        int
+	Pat      string
+	Chunks   []int // put chunkings to try
+	Concs    []int
 	FullRead bool // run the full read battery
 }
 
@@ -215,7 +215,9 @@ func c01run(rep *lib.Report, c c01case) {
 			fs := newFs(st, L, conc, 0, 8)
 			shape := fmt.Sprintf("%s|%s", chunkClass(chunk, L), lenClass(n, L))
 			replay := map[string]interface{}{"L": L, "n": n, "pattern": c.Pat, "chunk": chunk, "flush_concurrency": conc}
-			desc := func() string { return fmt.Sprintf("Put L=%d n=%d pattern=%s chunk=%d conc=%d", L, n, c.Pat, chunk, conc) }
+			desc := func() string {
+				return fmt.Sprintf("Put L=%d n=%d pattern=%s chunk=%d conc=%d", L, n, c.Pat, chunk, conc)
+			}
 			guard(rep, "C01|put|"+shape, desc, replay, func() {
 				res, err := fs.Put(ctx, source(data, chunk))
 				rep.Eval(1)
